@@ -44,11 +44,11 @@ def proj_crypt(op, a, b, full=True):
     if not (tailc <= A64 or tailc <= BF64 or tailc <= HEXL): return "digest part uses characters outside the hash alphabets"
     return None
 
-BUDGET = {"quick": (60000, 64 << 20), "thorough": (600000, 256 << 20)}
+BUDGET = {"quick": (120000, 64 << 20), "thorough": (1500000, 256 << 20)}
 
-def run_budgeted(R, ops, meta=None, **kw):
+def run_budgeted(R, ops, meta=None, group_starts=None, **kw):
     """cost every op with the model first; ops above the tier's budget are not sent to the implementation"""
-    ml0 = R.run_model(ops)
+    ml0 = R.run_model([("C" + o) if o.startswith("C ") else "P" for o in ops])
     cmax, mmax = BUDGET[R.tier]
     keep = [i for i, l in enumerate(ml0) if int(fields(l).get("cost", 0)) <= cmax and int(fields(l).get("mem", 0)) <= mmax]
     cut = len(ops) - len(keep)
@@ -61,7 +61,18 @@ def run_budgeted(R, ops, meta=None, **kw):
         bc["ops"] = bc.get("ops", 0) + cut
     ops2 = [ops[i] for i in keep]
     meta2 = [meta[i] for i in keep] if meta is not None else None
-    il, ml, opf = R.run_pair(ops2, **kw)
+    if group_starts is None:
+        il, ml, opf = R.run_pair(ops2, **kw)
+        return ops2, meta2, il, ml
+    # split into self-contained groups at the given boundaries (indices into the original op list)
+    starts = set(group_starts)
+    groups, cur = [], []
+    for i in keep:
+        if i in starts and cur: groups.append(cur); cur = []
+        cur.append(ops[i])
+    if cur: groups.append(cur)
+    ops3, il, ml = R.run_pair_sharded(groups, **kw)
+    assert ops3 == ops2
     return ops2, meta2, il, ml
 
 # ---------------------------------------------------------------------------------------------
